@@ -31,9 +31,12 @@ NPROC = os.cpu_count() or 4
 EVDIR = os.path.join(VERIF, "evidence") if not ALT else os.path.join(BUILD, "evidence" + ALT)
 
 # property -> (cluster package, quick timeout s, thorough timeout s, thorough shards, [(fuzz target, seconds)])
-def P(cluster, technique, text, note, ref, qt=900, tt=3000, shards=16, fuzz=()):
+def P(cluster, technique, text, note, ref, qt=900, tt=3000, shards=16, fuzz=(), race=0):
+    # race = n: in the thorough tier n extra shards run the same test from a -race build (a quarter of the cases). The
+    # race detector is NOT an oracle here (its reports go to files and do not change the exit code): the instrumented
+    # binary only perturbs the Go scheduler, so the same oracle sees other interleavings.
     return dict(cluster=cluster, technique=technique, text=text, note=note, ref=ref, qt=qt, tt=tt, shards=shards,
-                fuzz=list(fuzz))
+                fuzz=list(fuzz), race=race)
 
 PROPS = {
     "C27": P("hdata", "enumeration of all lengths x indices + rapid-generated (length, flush points) against an independent Merkle reference",
@@ -135,13 +138,13 @@ PROPS = {
              "Lock-level interleavings of random programs (account read/write/idle locks, world read/write locks, reset, retry) must give identical reads, receipts and "
              "state hash to one-by-one execution. Exploration: the harness owns three gates per body; Go-scheduler interleavings inside goloop are not enumerated.",
              "bodies touch only declared accounts and start as the dispatcher's worker does; the reference is the harness body interpreter on goloop's plain WorldState",
-             "DESIGN §6 (C09)"),
+             "DESIGN §6 (C09)", race=4),
     "C10": P("hexec", "rapid-generated fault-scripted blocks through real transitions at ConcurrencyLevel 1/2/4/8 with an observational receipt-versus-last-attempt "
              "oracle and a crash journal",
              "Every generated block either errors or carries exactly the receipts of each transaction's last attempt, in order, across fault positions, fault kinds "
              "(retryable, retry-exhausted, non-retryable) and both execution modes; a process crash is a violation via the journal. Exploration.",
              "trusts the harness handler's attempt recorder; goroutine schedules are the Go runtime's; 'recoverable implies success' is measured, not demanded",
-             "DESIGN §6 (C10)"),
+             "DESIGN §6 (C10)", race=4),
     "C15": P("hfee", "rapid-generated chain configs and blocks of real signed transactions executed by real transitions on MapDB, compared with an accounting model "
              "built from receipts",
              "Thousands of blocks with zero, tiny and huge balances, values and limits on the affordability boundaries, step prices 0..1.25e10, in-block price changes, "
@@ -369,30 +372,44 @@ def limit():
     os.setsid()
 
 
+def nolimit():
+    # -race binaries reserve terabytes of address space for shadow memory: no RLIMIT_AS for them
+    os.setsid()
+
+
 class Shard:
     def __init__(self, idx, proc, d, log):
         self.idx, self.proc, self.dir, self.log = idx, proc, d, log
         self.timed_out = False
+        self.race = False
 
 
-def run_shards(pid, binary, tier, nshards, timeout, scratch, test_re, extra_args=(), extra_env=None):
+def run_shards(pid, binary, tier, nshards, timeout, scratch, test_re, extra_args=(), extra_env=None, race_binary=None,
+               nrace=0):
     shards = []
     seed = base_seed()
     kf = "\n".join("%s\t%s" % kv for kv in known_findings(pid))
-    for i in range(nshards):
+    total = nshards + (nrace if race_binary else 0)
+    for i in range(total):
         d = os.path.join(scratch, "shard%d" % i)
         os.makedirs(os.path.join(d, "tmp"))
         env = dict(os.environ)
         env.update(VERIF_TIER=tier, VERIF_EVOUT=os.path.join(d, "ev.json"), VERIF_JOURNAL=os.path.join(d, "journal.txt"),
-                   VERIF_KNOWN=kf, VERIF_SHARD=str(i), VERIF_NSHARDS=str(nshards), TMPDIR=os.path.join(d, "tmp"),
-                   GOTRACEBACK="all", GOMAXPROCS=str(max(2, NPROC // max(1, min(nshards, NPROC // 2)))))
+                   VERIF_KNOWN=kf, VERIF_SHARD=str(i), VERIF_NSHARDS=str(total), TMPDIR=os.path.join(d, "tmp"),
+                   GOTRACEBACK="all", GOMAXPROCS=str(max(2, NPROC // max(1, min(total, NPROC // 2)))))
         if extra_env:
             env.update(extra_env)
-        args = [binary, "-test.run", test_re, "-test.timeout", "0", "-test.count", "1",
+        israce = i >= nshards
+        if israce:
+            env.update(VERIF_SCALE="0.25", GORACE="halt_on_error=0 exitcode=0 log_path=%s" % os.path.join(d, "race"))
+        args = [race_binary if israce else binary, "-test.run", test_re, "-test.timeout", "0", "-test.count", "1",
                 "-rapid.seed=%d" % (seed + i * 104729)] + list(extra_args)
         log = open(os.path.join(d, "out.txt"), "w")
-        p = subprocess.Popen(args, cwd=d, env=env, stdout=log, stderr=subprocess.STDOUT, preexec_fn=limit)
-        shards.append(Shard(i, p, d, log))
+        p = subprocess.Popen(args, cwd=d, env=env, stdout=log, stderr=subprocess.STDOUT,
+                             preexec_fn=nolimit if israce else limit)
+        sh = Shard(i, p, d, log)
+        sh.race = israce
+        shards.append(sh)
     deadline = time.time() + timeout
     for s in shards:
         try:
@@ -420,6 +437,11 @@ def classify(s):
         return "inconclusive", "harness reported inconclusive"
     if re.search(r"out of memory|cannot allocate memory|signal: killed|newosproc|failed to create new OS thread", out) or rc in (-9, 137):
         return "inconclusive", "resource exhaustion"
+    if getattr(s, "race", False) and "--- FAIL" in out and " violated" not in out and "panic:" not in out and "fatal error:" not in out:
+        # a -race shard whose only complaint is the testing package's "race detected during execution of test":
+        # the race detector is not an oracle of any property here (see P(race=...))
+        if "race detected during execution of test" in out:
+            return "pass", "race reports ignored"
     if "--- FAIL" in out:
         return "violation", "test failure"
     if "panic:" in out or "fatal error:" in out:
@@ -560,7 +582,11 @@ def run_check(pid, tier):
     try:
         nsh = 1 if tier == "quick" else cfg["shards"]
         to = cfg["qt"] if tier == "quick" else cfg["tt"]
-        shards = run_shards(pid, binary, tier, nsh, to, scratch, test_regex(pid))
+        rbin, nrace = None, 0
+        if tier == "thorough" and cfg.get("race"):
+            rbin, rlog = build(cfg["cluster"], race=True)
+            nrace = cfg["race"] if rbin else 0
+        shards = run_shards(pid, binary, tier, nsh, to, scratch, test_regex(pid), race_binary=rbin, nrace=nrace)
         res = [(s,) + classify(s) for s in shards]
         for s in shards:
             for l in open(os.path.join(s.dir, "out.txt"), errors="replace"):
@@ -570,6 +596,12 @@ def run_check(pid, tier):
         inc = [(s, why) for s, c, why in res if c == "inconclusive"]
         notes = []
         crashers = []
+        if nrace:
+            nrep = sum(len(glob.glob(os.path.join(s.dir, "race.*"))) for s in shards if getattr(s, "race", False))
+            notes.append("%d of %d shards ran a -race build at a quarter of the cases (scheduler perturbation only; %d race "
+                         "detector report file(s), not used as an oracle)" % (nrace, len(shards), nrep))
+        elif tier == "thorough" and cfg.get("race"):
+            notes.append("-race build failed; no perturbed shards")
         if tier == "thorough" and cfg["fuzz"] and not viol:
             crashers = run_fuzz(pid, cfg, scratch, notes)
         nviol = len(viol) + len(crashers)
